@@ -23,28 +23,29 @@ func sortFilter(array []any, key any) []any {
 func sortNaturalFilter(array []any, key any) any {
 	result := make([]any, len(array))
 	copy(result, array)
-	switch {
-	case reflect.ValueOf(array).Len() == 0:
-	case key != nil:
+	if key != nil {
+		keyValue := values.ValueOf(key)
 		sort.Sort(keySortable{result, func(m any) string {
-			rv := reflect.ValueOf(m)
-			if rv.Kind() != reflect.Map {
-				return ""
-			}
-			ev := rv.MapIndex(reflect.ValueOf(key))
-			if ev.CanInterface() {
-				if s, ok := ev.Interface().(string); ok {
-					return strings.ToLower(s)
-				}
-			}
-			return ""
+			return strings.ToLower(stringOrEmpty(values.ValueOf(m).PropertyValue(keyValue).Interface()))
 		}})
-	case reflect.TypeOf(array[0]).Kind() == reflect.String:
+	} else {
 		sort.Sort(keySortable{result, func(s any) string {
-			return strings.ToUpper(s.(string))
+			return strings.ToUpper(stringOrEmpty(s))
 		}})
 	}
 	return result
+}
+
+// stringOrEmpty returns the string that v is (after unwrapping a drop), else "".
+func stringOrEmpty(v any) string {
+	v = values.ToLiquid(v)
+	if v == nil {
+		return ""
+	}
+	if rv := reflect.ValueOf(v); rv.Kind() == reflect.String {
+		return rv.String()
+	}
+	return ""
 }
 
 type keySortable struct {
